@@ -43,9 +43,9 @@ func init() {
 			anchorLost("tars/protocol/tarsprotocol.go: TarsRequest: comparison `len(rev) < iHeaderLen` not found")
 		}
 		// the reassembly buffer is per connection: in both receive loops the argument of
-		// ParsePackage is a plain identifier declared inside that function by `var x []byte`
-		// (a fresh nil slice for every activation of the loop, i.e. for every connection) and the
-		// function assigns to no struct field holding bytes. Model: `reconnect` = Conn.init.
+		// ParsePackage is a plain identifier declared inside that function (`var x []byte`
+		// or `x := …`: a fresh variable for every activation of the loop, i.e. for every connection),
+		// not a field of a longer-lived object and not a package variable. Model: `reconnect` = Conn.init.
 		for _, loc := range [][2]string{{"tars/transport/tcphandler.go", "tcpHandler.recv"},
 			{"tars/transport/tarsclient.go", "connection.recv"}} {
 			f := parse(loc[0])
@@ -64,10 +64,16 @@ func init() {
 					if gd, ok := x.Decl.(*ast.GenDecl); ok && gd.Tok == token.VAR {
 						for _, sp := range gd.Specs {
 							vs := sp.(*ast.ValueSpec)
-							if len(vs.Values) == 0 && vs.Type != nil && exprStr(f.fset, vs.Type) == "[]byte" {
-								for _, nm := range vs.Names {
-									localSlices[nm.Name] = true
-								}
+							for _, nm := range vs.Names {
+								localSlices[nm.Name] = true
+							}
+						}
+					}
+				case *ast.AssignStmt:
+					if x.Tok == token.DEFINE {
+						for _, l := range x.Lhs {
+							if id, ok := l.(*ast.Ident); ok {
+								localSlices[id.Name] = true
 							}
 						}
 					}
@@ -84,7 +90,7 @@ func init() {
 			for _, a := range args {
 				id, ok := a.(*ast.Ident)
 				if !ok || !localSlices[id.Name] {
-					anchorLost("%s: %s: the reassembly buffer `%s` handed to ParsePackage is not a `var … []byte` local of the receive loop (state that survives the connection?)",
+					anchorLost("%s: %s: the reassembly buffer `%s` handed to ParsePackage is not a local variable of the receive loop (state that survives the connection?)",
 						loc[0], loc[1], exprStr(f.fset, a))
 				}
 			}
